@@ -2,10 +2,11 @@
 # mutant_matrix.sh [seeds...]  -- runs every seeded change against its property's quick check
 # (scratch worktree per change, never touching /repo's tree) and records which signatures fired.
 SEEDS="${@:-1 2 3}"
-OUT=/verif/seeded/matrix.jsonl
+OUT=${OUT:-/verif/seeded/matrix.jsonl}
 : > $OUT.tmp
 for d in /verif/seeded/C*/; do
   id=$(basename $d); P=${id:0:3}
+  [ -n "$ONLY" ] && ! echo "$id" | grep -Eq "$ONLY" && continue
   extra=""
   [ -f $d/also_checks ] && extra=$(cat $d/also_checks)
   for chk in $P $extra; do
@@ -13,7 +14,7 @@ for d in /verif/seeded/C*/; do
     for s in $SEEDS; do
       f=/tmp/mv/out-$id-$chk-$s.log
       sigs=$(grep -a 'signature:' $f | sed 's/.*signature: //' | sort -u | jq -R . | jq -sc .)
-      nviol=$(grep -ac '^VIOLATION' $f)
+      nviol=$(grep -ac '^VIOLATION' $f 2>/dev/null); nviol=${nviol:-0}
       echo "{\"mutant\":\"$id\",\"check\":\"$chk\",\"seed\":$s,\"violation_lines\":$nviol,\"signatures\":$sigs}" >> $OUT.tmp
     done
   done
